@@ -1107,7 +1107,7 @@ func (it *Interp) selectVal(c *Term, a, b Value) Value {
 		}
 		return b
 	}
-	if it.mode == Math {
+	if it.mode == Math && !it.cfg.MinMaxIte {
 		if t, ok := a.(*Term); ok && t.S.K == SReal {
 			if it.decide(c) {
 				return a
